@@ -90,8 +90,7 @@ theorem exec_inv : ∀ (f : Nat) (t : Task) (w : World), Inv w.c → RInv (exec 
             try simp only
             split
             · rename_i a' ha
-              have := readRef_some ha
-              obtain ⟨e, _, hd⟩ := this
+              obtain ⟨e, _, hd⟩ := readRef_some ha
               subst e
               exact setEc_inv true hw hd
             · exact hw
@@ -101,7 +100,9 @@ theorem exec_inv : ∀ (f : Nat) (t : Task) (w : World), Inv w.c → RInv (exec 
             · rename_i a' ha
               obtain ⟨e, _, hd⟩ := readRef_some ha
               subst e
-              exact setEc_inv false hw hd
+              split
+              · exact setEc_inv false hw hd
+              · exact hw
             · exact hw
           | ln a s =>
             try simp only
@@ -121,6 +122,21 @@ theorem exec_inv : ∀ (f : Nat) (t : Task) (w : World), Inv w.c → RInv (exec 
             split
             · exact crashR_inv hw
             · exact findLivingC_inv _ hw
+          | aa a verb =>
+            try simp only
+            split
+            · exact hw
+            · split
+              · exact hw
+              · refine ite_inv (crashR_inv hw) ?_
+                refine ite_inv (by exact hw) ?_
+                exact sentOnly_inv (addSent_sentOnly _ _ _ _) hw
+          | cmd a verb =>
+            try simp only
+            split
+            · exact hw
+            · refine andThen_inv (ih _ _ (by exact hw)) ?_
+              intro w1 v h1; exact h1
           | kp a =>
             try simp only
             split <;> exact hw
@@ -139,13 +155,11 @@ theorem exec_inv : ∀ (f : Nat) (t : Task) (w : World), Inv w.c → RInv (exec 
           · exact ih _ _ h1
     | hook x k arg =>
       simp only [exec]
-      split
-      · exact crashR_inv hw
-      · split
-        · exact hw
-        · refine andThen_inv (ih _ _ ?_) ?_
-          · cases k <;> exact hw
-          · intro w1 v h1; exact h1
+      refine ite_inv (crashR_inv hw) ?_
+      refine ite_inv (by exact hw) ?_
+      refine andThen_inv (ih _ _ ?_) ?_
+      · cases k <;> cases arg <;> exact hw
+      · intro w1 v h1; exact h1
     | load b =>
       simp only [exec]
       split
@@ -172,24 +186,22 @@ theorem exec_inv : ∀ (f : Nat) (t : Task) (w : World), Inv w.c → RInv (exec 
       split
       · exact h1
       · rename_i ob
-        split
-        · exact crashR_inv h1
-        · split
-          · exact raise_inv h1
-          · refine andThen_inv (ih _ _ ?_) ?_
-            · refine alloc_inv (ctr_inv h1) ?_ ?_
-              · intro i hi hd hn
-                have := h1.names.fresh i w1.c.ctr hi (by simp [nameF]; rw [hn])
-                omega
-              · intro k hk; simp at hk; subst hk; simp
-            · intro w2 v2 h2; split <;> exact h2
+        refine ite_inv (crashR_inv h1) ?_
+        refine ite_inv (raise_inv h1) ?_
+        refine andThen_inv (ih _ _ ?_) ?_
+        · refine alloc_inv (ctr_inv h1) ?_ ?_
+          · intro i hi hd hn
+            have := h1.names.fresh i w1.c.ctr hi (by simp [nameF]; rw [hn])
+            omega
+          · intro k hk; simp at hk; subst hk; simp
+        · intro w2 v2 h2; split <;> exact h2
     | move item dest =>
       simp only [exec]
       split
       · exact crashR_inv hw
       · rename_i hlt
         have hlt' : item < w.c.n ∧ dest < w.c.n := by
-          apply Classical.byContradiction; intro hc; exact hlt hc
+          apply Classical.byContradiction; intro hc; exact hlt (Or.inl hc)
         split
         · exact raise_inv hw
         · rename_i hid
@@ -201,8 +213,14 @@ theorem exec_inv : ∀ (f : Nat) (t : Task) (w : World), Inv w.c → RInv (exec 
             split
             · exact raise_inv hw
             · rename_i hdd
-              have hrel : Inv (relink w.c item dest) :=
-                relink_inv hw hlt'.1 (by simpa using hid) hlt'.2 (by simpa using hdd) (superWalk_clear _ _ hclear)
+              have hso := unsentMove_sentOnly w.c item
+              have hpr := sentOnly_proj hso
+              have hu : Inv (unsentMove w.c item) := sentOnly_inv hso hw
+              have hrel : Inv (relink (unsentMove w.c item) item dest) := by
+                refine relink_inv hu (by rw [hpr.1]; exact hlt'.1) ?_ (by rw [hpr.1]; exact hlt'.2) ?_ ?_
+                · rw [(sentOnly_obj hso item).1]; simpa using hid
+                · rw [(sentOnly_obj hso dest).1]; simpa using hdd
+                · rw [hpr.2.2.2.2.2.2.2.1]; exact superWalk_clear _ _ hclear
               refine ite_inv (crashR_inv hw) ?_
               refine andThen_inv ?_ ?_
               · split
@@ -212,44 +230,47 @@ theorem exec_inv : ∀ (f : Nat) (t : Task) (w : World), Inv w.c → RInv (exec 
                 split
                 · exact h1
                 · exact ih _ _ h1
-    | fan item dest cur =>
+    | fan item dest cur saveCg =>
       simp only [exec]
       split
-      · split
-        · exact raise_inv hw
+      · refine ite_inv (raise_inv hw) ?_
+        refine andThen_inv ?_ ?_
         · split
           · exact ih _ _ hw
           · exact hw
-      · split
-        · exact crashR_inv hw
+        · intro w1 v h1; exact h1
+      · refine ite_inv (crashR_inv hw) ?_
+        refine ite_inv (ih _ _ hw) ?_
+        refine ite_inv (raise_inv hw) ?_
+        refine ite_inv (ih _ _ hw) ?_
+        refine andThen_inv ?_ ?_
         · split
           · exact ih _ _ hw
+          · exact hw
+        · intro w1 v h1
+          refine ite_inv (by exact h1) ?_
+          refine ite_inv (raise_inv h1) ?_
+          refine ite_inv (ih _ _ h1) ?_
+          refine andThen_inv ?_ ?_
           · split
-            · exact raise_inv hw
-            · refine andThen_inv ?_ ?_
-              · split
-                · exact ih _ _ hw
-                · exact hw
-              · intro w1 v h1
-                split
-                · exact h1
-                · split
-                  · exact raise_inv h1
-                  · refine andThen_inv ?_ ?_
-                    · split
-                      · exact ih _ _ h1
-                      · exact h1
-                    · intro w2 v2 h2
-                      split
-                      · exact h2
-                      · exact ih _ _ h2
+            · exact ih _ _ h1
+            · exact h1
+          · intro w2 v2 h2
+            refine ite_inv (by exact h2) (ih _ _ h2)
+    | command a verb =>
+      simp only [exec]
+      refine ite_inv (crashR_inv hw) ?_
+      refine ite_inv (by exact hw) ?_
+      refine ite_inv (by exact hw) ?_
+      split
+      · exact hw
+      · refine andThen_inv (ih _ _ (by exact hw)) ?_
+        intro w1 v h1; exact h1
     | destruct ob =>
       simp only [exec]
-      split
-      · exact raise_inv hw
-      · split
-        · exact hw
-        · exact ih _ _ hw
+      refine ite_inv (raise_inv hw) ?_
+      refine ite_inv (crashR_inv hw) ?_
+      refine ite_inv (by exact hw) (ih _ _ hw)
     | dloop ob sup0 saveR =>
       simp only [exec]
       split
@@ -259,23 +280,25 @@ theorem exec_inv : ∀ (f : Nat) (t : Task) (w : World), Inv w.c → RInv (exec 
         · rename_i hlive
           have hlive' : ob < w.c.n ∧ (w.c.objs ob).destructed = false := by
             apply Classical.byContradiction; intro hc; exact hlive hc
-          exact ite_inv (crashR_inv hw) (finishDestruct_inv hw hlive'.1 hlive'.2 hempty)
+          have hso := unsentDestruct_sentOnly w.c ob
+          have hpr := sentOnly_proj hso
+          have hu : Inv (unsentDestruct w.c ob) := sentOnly_inv hso hw
+          have hob := sentOnly_obj hso ob
+          refine ite_inv (crashR_inv hw) ?_
+          exact finishDestruct_inv hu (by rw [hpr.1]; exact hlive'.1) (by rw [hob.1]; exact hlive'.2)
+            (by rw [hob.2.2.1]; exact hempty)
       · refine ite_inv (crashR_inv hw) ?_
         refine ite_inv (crashR_inv hw) ?_
         refine andThen_inv (ih _ _ ?_) ?_
         · exact hw
         · intro w1 v h1
-          split
-          · exact h1
-          · refine andThen_inv ?_ ?_
-            · split
-              · exact ih _ _ h1
-              · exact h1
-            · intro w2 v2 h2
-              split
-              · exact h2
-              · exact ih _ _ h2
-
+          refine ite_inv (by exact h1) ?_
+          refine andThen_inv ?_ ?_
+          · split
+            · exact ih _ _ h1
+            · exact h1
+          · intro w2 v2 h2
+            refine ite_inv (by exact h2) (ih _ _ h2)
 
 theorem probe_inv {w : World} (hw : Inv w.c) : Inv (probe w).c := by
   unfold probe
@@ -316,7 +339,9 @@ theorem stepCmd_inv (sc : Scripts) {w : World} (cmd : Cmd) (hw : Inv w.c) : Inv 
   | top op =>
     simp only [stepCmd]
     have := exec_inv sc topFuel (.ops 1 none [op]) w hw
-    split <;> exact this
+    split
+    · exact hw
+    · split <;> exact this
   | snap => exact hw
   | probe => exact probe_inv hw
   | gc => exact gc_inv hw
